@@ -24,7 +24,7 @@ BANDS = [(8.0, -1.0, 4148808), (1500.0, -0.1, 256), (400.0, 1.0 / 3.0, 64), (140
 P0 = {"c0": 0, "ch": 0, "k": 0, "cps": 1, "ff": 1, "nsub": 1, "m": 1}
 SITES = dict(c07.SITES, collapse="Filterbank.collapse", chan="Filterbank.read_chan", dedisp="Filterbank.dedisperse",
              read_block="FilReader.read_block", blk_downsample="FilterbankBlock.downsample",
-             blk_dedisperse="FilterbankBlock.dedisperse", get_tim="FilterbankBlock.get_tim", read_dedisp="FilReader.read_dedisp_block",
+             read_block_refuse="FilReader.read_block", blk_dedisperse="FilterbankBlock.dedisperse", get_tim="FilterbankBlock.get_tim", read_dedisp="FilReader.read_dedisp_block",
              ts_downsample="TimeSeries.downsample", ts_pad="TimeSeries.pad")
 
 
@@ -73,6 +73,21 @@ def cont_job(spec):
                     e["p"].update({"c0": 0, "m": c})
                 a = np.asarray(r.data)
                 e["rows"] = [[int(x) for x in row] for row in a] if np.all(a == np.round(a)) else [[-1]]
+            elif op == "read_block_refuse":
+                c0, m = call["c0"], call["m"]
+                e["p"].update({"c0": c0, "m": m})
+                f1 = fil.header.fch1 + (c0 + call.get("frac", 0.0)) * fil.header.foff
+                try:
+                    r = fil.read_block(start, nsamps, fch1=f1, nchans=m)
+                    e["outcome"] = "ok"
+                except ValueError:
+                    e["outcome"] = "ValueError"
+                except Exception as exc:  # noqa: BLE001
+                    e["outcome"] = f"raise:{type(exc).__name__}"
+                e["obs"] = {"off2k": 0, "stepk": 0, "tsk": 0, "dt_us": 0, "dm_milli": 0, "nchans": 0, "nsamples_hdr": 0, "nsamples_data": 0, "nbits": 0}
+                fil._file.close()
+                ev.append(e)
+                continue
             elif op == "blk_downsample":
                 tf, ff = call["tf"], call["ff"]
                 e["op"], e["tf"], e["ns_expected"] = "downsample", tf, nsamps // tf
@@ -187,6 +202,8 @@ def run(v) -> None:
                 calls += [dict(base, op="collapse"), dict(base, op="chan", ch=rng.randrange(c)),
                           dict(base, op="dedisp", dm=rng.choice([0.0, 0.2, 0.4])),
                           dict(base, op="read_block", c0=c0, m=m, byfreq=True), dict(base, op="read_block", c0=0, m=c, byfreq=False),
+                          dict(base, op="read_block_refuse", c0=c0, m=c - c0 + rng.choice([1, 2])),       # runs past the last channel
+                          dict(base, op="read_block_refuse", c0=-1, m=1), dict(base, op="read_block_refuse", c0=c, m=1),
                           dict(base, op="blk_downsample", tf=rng.choice([1, 2]), ff=rng.choice([f for f in (1, 2, 3) if c % f == 0])),
                           dict(base, op="blk_dedisperse", dm=rng.choice([0.0, 0.2])), dict(base, op="get_tim"),
                           dict(base, op="read_dedisp", dm=rng.choice([0.0, 0.2, 0.4, -0.2])),
@@ -226,7 +243,9 @@ def run(v) -> None:
         c = e["C"]
         # name the failing clause (python mirrors of the TLA+ conjuncts, for the message only)
         clause = "HeaderMatchesData"
-        if e["outcome"] != "ok":
+        if e["op"] == "read_block_refuse":
+            clause = "NonExistentChannelsRefused"
+        elif e["outcome"] != "ok":
             clause = "MustNotRaise"
         elif abs(o["dt_us"] - e["start"] * t["hdr"]["tsamp_us"]) > 5:
             clause = "TstartAdvanced"
